@@ -1,6 +1,7 @@
 package type3
 
 import (
+	"encoding/hex"
 	"crypto"
 	"crypto/rand"
 	"crypto/rsa"
@@ -54,3 +55,5 @@ func c07Honest(origin string, registered ...string) (*RateLimitedIssuer, RateLim
 
 // the request blind used by the last c07Honest call
 var t3LastBlind []byte
+
+func hexOf(b []byte) string { return hex.EncodeToString(b) }
